@@ -14,6 +14,9 @@ hs.append(Harness("verifC04Round3", "./sha2pc", [("zzverif", "zzverif"), ("sha2p
                   desc="SHA256(XOR) round protocol: the real sha2pc.GarblerRound3 (real Circuit.Garble, LabelForBit, EncryptCOCiphertexts) on a synthetic circuit with the required signature "
                        "(256+256 inputs, 256 outputs, every gate kind), stub elliptic curve, deriveMask uninterpreted: every label-sized value of the Round-3 payload in EncodeRound3's field order "
                        "(key, tables, garbler input labels, output hints, OT ciphertexts) at every byte offset; the two hint labels of each output wire are analysed per wire"))
+st = ("streaming-mode kernel: the real circuit.NewStreaming + Streaming.Garble on a sequence of one-gate per-instruction circuits that share their first input wire "
+      "(as two MPCL instructions using the same variable do); every byte written for the gate stream; ")
+hs += [H("verifC04Stream1", st + "one AND circuit"), H("verifC04Stream2", st + "two consecutive AND circuits"), H("verifC04StreamMix", st + "OR, INV, AND circuits")]
 if tier != "quick":
     hs.append(H("verifC04C", "2+2 input bits, two gates of every type pair, two outputs"))
 sys.exit(run_property(
@@ -25,7 +28,7 @@ sys.exit(run_property(
     ["garbler inputs are concrete patterns (a leak must hold for all randomness; the quantifier over inputs is covered by the stated patterns)",
      "the OT is ideal and reveals exactly one label per transferred wire (C06)", "AES is an uninterpreted function",
      "sha2pc: sha256xorCircuit replaced by a synthetic circuit (go/ssa does not materialise the embedded blob); stub elliptic.Curve; ot.deriveMask (SHA-256) uninterpreted"],
-    ["streaming mode (Program.Stream needs the whole compiler inside the engine)",
+    ["streaming mode beyond the garbling kernel: which circuits Program.Stream issues and its input-label selection loop (the compiler cannot run inside the engine); sequences of more than 3 streamed circuits",
      "sha2pc: the byte layout produced by EncodeRound3 at the real table size (the payload fields are serialised by the harness in the same order), the real P-curves (stub curve: the points only feed deriveMask) and Round 1/2 messages (public OT points)",
      "linear combinations of more than two transmitted values; computational (non-structural) leakage", "input patterns other than the listed ones"],
     uses_uf=True, quick_deadline=900, thorough_deadline=3000, parallel=2))
